@@ -24,7 +24,11 @@ var (
 	rcR5  = rcLattice{name: "R5", xs: []int64{0, 10, 20, 30, 40}, ys: []int64{0, 10, 20, 30, 40}, rect: [4]int64{10, 10, 30, 30}}
 	rcR6  = rcLattice{name: "R6", xs: []int64{0, 10, 17, 24, 30, 40}, ys: []int64{0, 10, 17, 24, 30, 40}, rect: [4]int64{10, 10, 30, 30}}
 	rcR5s = rcLattice{name: "R5sheared", xs: []int64{0, 10, 20, 30, 40}, ys: []int64{0, 10, 20, 30, 40}, rect: [4]int64{10, 13, 30, 33}, shear: 3}
-	rcR4  = rcLattice{name: "R4", xs: []int64{0, 10, 20, 30}, ys: []int64{0, 10, 20, 30}, rect: [4]int64{10, 10, 20, 20}}
+	// long paths over few points: the four corners of a frame around the rectangle (loops that wind around it
+	// several times without touching it), and the frame's corners, side midpoints and centre
+	rcC4 = rcLattice{name: "frame corners", xs: []int64{0, 40}, ys: []int64{0, 40}, rect: [4]int64{10, 10, 30, 30}}
+	rcC9 = rcLattice{name: "frame 3x3", xs: []int64{0, 20, 40}, ys: []int64{0, 20, 40}, rect: [4]int64{10, 10, 30, 30}}
+	rcR4 = rcLattice{name: "R4", xs: []int64{0, 10, 20, 30}, ys: []int64{0, 10, 20, 30}, rect: [4]int64{10, 10, 20, 20}}
 	// other rectangles on R5 coordinates: non-square, touching the lattice edge, one unit wide
 	rcOther = [][4]int64{{0, 10, 40, 30}, {10, 0, 20, 40}, {0, 0, 40, 40}, {20, 20, 21, 30}, {10, 10, 20, 30}, {5, 15, 35, 25}}
 )
@@ -198,6 +202,7 @@ func init() {
 			}
 			out = append(out, c06Scope(rcR4, 3, rcR4.rect, 3, true))
 			out = append(out, c06Scope(rcR5, 5, rcR5.rect, 3, false))
+			out = append(out, c06Scope(rcC4, 8, rcC4.rect, 4, false), c06Scope(rcC9, 6, rcC9.rect, 4, false))
 			if tier == "quick" {
 				return out
 			}
@@ -205,7 +210,7 @@ func init() {
 			for _, r := range rcOther {
 				out = append(out, c06Scope(rcR5, 4, r, 3, false))
 			}
-			out = append(out, c06Scope(rcR5, 6, rcR5.rect, 5, false))
+			out = append(out, c06Scope(rcR5, 6, rcR5.rect, 5, false), c06Scope(rcC9, 7, rcC9.rect, 5, false), c06Scope(rcC4, 10, rcC4.rect, 5, false))
 			return out
 		},
 	})
